@@ -93,3 +93,15 @@ pub proof fn lemma_suffix_refl(a: Seq<PrefixFile>)
 {
     assert(a =~= a.subrange(0, a.len() as int));
 }
+
+pub open spec fn not_after(s: Seq<PrefixFile>, t: SystemTime) -> bool {
+    forall|i: int| 0 <= i < s.len() ==> time_of(#[trigger] s[i].mtime) <= time_of(t)
+}
+pub proof fn lemma_not_after_suffix(a: Seq<PrefixFile>, b: Seq<PrefixFile>, t: SystemTime)
+    requires a.is_suffix_of(b), not_after(b, t)
+    ensures not_after(a, t)
+{
+    assert forall|i: int| 0 <= i < a.len() implies time_of(#[trigger] a[i].mtime) <= time_of(t) by {
+        assert(a[i] == b[b.len() - a.len() + i]);
+    }
+}
